@@ -1073,6 +1073,10 @@ class Interp:
                     parts.append(x)
                 elif is_z3(x) and x.sort() == z3.StringSort() and v.conversion == -1:
                     parts.append(x)
+                elif isinstance(x, int) and not isinstance(x, bool) and v.conversion == -1 and v.format_spec is None:
+                    parts.append(str(x))
+                elif is_z3(x) and x.sort() == z3.IntSort() and v.conversion == -1 and v.format_spec is None:
+                    parts.append(z3.If(x >= 0, z3.IntToStr(x), z3.Concat(z3.StringVal("-"), z3.IntToStr(-x))))  # same encoding as str(int)
                 else:
                     parts.append(self.ctx.fresh("fstr", z3.StringSort()))  # message text: unconstrained
         if all(isinstance(p, str) for p in parts):
@@ -1823,6 +1827,8 @@ class Interp:
                 return self.calls[k](ctx, args, kwargs)
         raise Unsupported(f"method {name} on {type(obj).__name__}", node)
 
+    SPLIT_MAX = 4
+
     def str_method(self, s, name, args, node):
         a = [lift(x) if isinstance(x, (str, int)) or is_z3(x) else x for x in args]
         if name == "startswith" and len(a) == 1:
@@ -1856,6 +1862,38 @@ class Interp:
             self.ctx.assume(z3.Implies(s == z3.StringVal(""), r == z3.StringVal("")))
             self.ctx.assume(z3.Implies(z3.InRe(s, z3.Star(ws)), r == z3.StringVal("")))
             return r
+        if name in ("split", "rsplit") and 1 <= len(args) <= 2 and isinstance(args[0], str) and args[0] and (len(args) == 1 or (isinstance(args[1], int) and args[1] >= 0)):
+            # exact semantics of str.split(sep[, maxsplit]) / str.rsplit(sep, maxsplit) for a concrete non-empty separator: the path forks on
+            # "the separator occurs in what is left"; each fork cuts at the first (split) / last (rsplit) occurrence. The number of parts is
+            # unbounded without maxsplit: a path that needs more than SPLIT_MAX cuts is undecided (never accepted).
+            sep, n_sep = z3.StringVal(args[0]), len(args[0])
+            limit = args[1] if len(args) == 2 else None
+            if name == "rsplit" and limit is None:
+                raise Unsupported("str.rsplit without maxsplit on symbolic string", node)
+            parts, rest, cuts = [], s, 0
+            while limit is None or cuts < limit:
+                if getattr(self.ctx, "split_limit", None) is not None and cuts >= self.ctx.split_limit:
+                    # the unit's stated precondition "at most split_limit separators" (set by its setup), imposed as a hypothesis
+                    self.ctx.assume(z3.Not(z3.Contains(rest, sep)))
+                    break
+                if not self.ctx.branch(z3.Contains(rest, sep), f"{name}:separator-occurs#{cuts}"):
+                    break
+                if cuts >= self.SPLIT_MAX:
+                    raise Unsupported(f"str.{name}: more than {self.SPLIT_MAX} cuts on a symbolic string", node)
+                # the cut, characterised without IndexOf (unique decomposition; far easier for both solvers): rest == a + sep + b with the
+                # separator not occurring in a-plus-the-separator's-proper-prefix (split: first occurrence) / in b (rsplit: last occurrence)
+                a_, b_ = self.ctx.fresh(f"{name}.head", z3.StringSort()), self.ctx.fresh(f"{name}.tail", z3.StringSort())
+                self.ctx.assume(rest == z3.Concat(a_, sep, b_))
+                if name == "split":
+                    self.ctx.assume(z3.Not(z3.Contains(z3.Concat(a_, z3.StringVal(args[0][:-1])), sep)))
+                    parts.append(a_)
+                    rest = b_
+                else:
+                    self.ctx.assume(z3.Not(z3.Contains(z3.Concat(z3.StringVal(args[0][1:]), b_), sep)))
+                    parts.insert(0, b_)
+                    rest = a_
+                cuts += 1
+            return parts + [rest] if name == "split" else [rest] + parts
         if name == "isdigit" and not a:
             # ASCII model (assumption A2)
             return z3.InRe(s, z3.Plus(z3.Range("0", "9")))
